@@ -100,18 +100,18 @@ Definition apply_tamper (o : orc) (ctx : sbytes) (env : envelope) (tm : tamper) 
   end.
 
 Inductive env_case :=
-| EnvCase (nkeys : nat) (payload ctx id : bytes) (t total : Z) (grants : list (Z * list Z))
+| EnvCase (kidx : list nat) (payload ctx id : bytes) (t total : Z) (grants : list (Z * list Z))
           (tm : tamper) (privs : list nat) (uctx : bytes)
           (obs_build : nat)            (* 0 = accepted, otherwise the error class *)
           (obs_unlock : option uobs).  (* None when the build was rejected *)
 
 Definition env_agree (c : env_case) : bool :=
   match c with
-  | EnvCase nkeys payload ctx id t total grants tm privs uctx ob ou =>
+  | EnvCase kidx payload ctx id t total grants tm privs uctx ob ou =>
       let o := mk_orc true [] in
       let cfg := {| cf_id := lift id; cf_threshold := t; cf_total := total;
                     cf_grants := map (fun g : Z * list Z => {| gc_count := fst g; gc_idx := snd g |}) grants |} in
-      let keypairs := map (fun k => edpub (key_of k)) (seq 0 nkeys) in
+      let keypairs := map (fun k => edpub (key_of k)) kidx in  (* harness key at each keypair index, repetitions allowed *)
       match build o the_rnd (lift ctx) (lift payload) keypairs (Some cfg) with
       | Panic => false
       | Err k => Nat.eqb ob k && match ou with None => true | Some _ => false end
